@@ -15,7 +15,10 @@ def run(ctx):
                 "Lean model of trained_compress_chunk_nums / CompressionTable (proved equal to the spec encoder for every table "
                 "and input, C02w) is run against the real function through the guarded hook on random tables (any complete code "
                 "tree, disjoint ranges, divisors, run-length prefix, dyadic / full-width ranges, 16..128-bit types) and inputs "
-                "(covered, uncovered, off-lattice): bits or error kind compared string for string. non-trivial as in C01")
+                "(covered, uncovered, off-lattice): bits or error kind compared string for string. Stream floatfns: Prefix::k_info, gcd_bits_required and "
+                "Flags::bits_to_encode_count (f64 in the library) against the integer k = floor(log2(range/gcd+1)), the field-width "
+                "function gb and clog2(n+1) of the format model, on every power of two +-2 of every width and the f64 rounding zone. "
+                "non-trivial as in C01")
     if not ctx.model_ok:
         return
     cs = c01.cases(ctx)
@@ -72,3 +75,6 @@ def run(ctx):
     # layer W: the literal model of the body writer (proved = spec encoder, C02w) against trained_compress_chunk_nums
     from .. import litstream as L
     L.run_bodywrite(ctx, 250 if ctx.quick else 4000)
+    # the f64-defined field widths (k, GCD field, count field) against the integer functions of the format model
+    from .. import floatstream as F
+    F.run(ctx, {"kinfo", "gcdbits", "countbits"})
